@@ -62,7 +62,8 @@ Record tcp_live_inv (s : socket) : Prop := mkLiveInv {
   li_tx : rb_wf (s_tx_buffer s);
   li_cc : cc_ok (s_congestion_controller s);
   li_rtte : rtte_ok (s_rtte s);
-  li_K : live_K s
+  li_K : live_K s;
+  li_mss : 0 < s_remote_mss s
 }.
 
 (* inputs: the interface hands out 32-bit ISNs; a parsed segment has a 16-bit window, a 32-bit
@@ -240,21 +241,22 @@ Definition core_eq (s s' : socket) : Prop :=
   s_tx_buffer s' = s_tx_buffer s /\ s_local_seq_no s' = s_local_seq_no s /\
   s_remote_last_seq s' = s_remote_last_seq s /\ s_remote_win_len s' = s_remote_win_len s /\
   s_remote_win_scale s' = s_remote_win_scale s /\
-  s_congestion_controller s' = s_congestion_controller s /\ s_rtte s' = s_rtte s.
+  s_congestion_controller s' = s_congestion_controller s /\ s_rtte s' = s_rtte s /\
+  s_remote_mss s' = s_remote_mss s.
 
 Lemma core_eq_refl : forall s, core_eq s s.
 Proof. intros. repeat split. Qed.
 
 Lemma core_eq_trans : forall a b c, core_eq a b -> core_eq b c -> core_eq a c.
 Proof.
-  intros a b c (A1&A2&A3&A4&A5&A6&A7&A8&A9&A10) (B1&B2&B3&B4&B5&B6&B7&B8&B9&B10).
-  unfold core_eq. rewrite B1,B2,B3,B4,B5,B6,B7,B8,B9,B10. auto 12.
+  intros a b c (A1&A2&A3&A4&A5&A6&A7&A8&A9&A10&A11) (B1&B2&B3&B4&B5&B6&B7&B8&B9&B10&B11).
+  unfold core_eq. rewrite B1,B2,B3,B4,B5,B6,B7,B8,B9,B10,B11. auto 13.
 Qed.
 
 Lemma inv_core_eq : forall s s', core_eq s s' -> tcp_live_inv s -> tcp_live_inv s'.
 Proof.
-  intros s s' (E1&E2&E3&E4&E5&E6&E7&E8&E9&E10) I.
-  destruct I. constructor; unfold live_K in *; rewrite ?E1, ?E2, ?E3, ?E4, ?E5, ?E6, ?E7, ?E8, ?E9, ?E10;
+  intros s s' (E1&E2&E3&E4&E5&E6&E7&E8&E9&E10&E11) I.
+  destruct I. constructor; unfold live_K in *; rewrite ?E1, ?E2, ?E3, ?E4, ?E5, ?E6, ?E7, ?E8, ?E9, ?E10, ?E11;
     assumption.
 Qed.
 
@@ -297,7 +299,8 @@ Lemma dt_spec : forall cx s s1 tg,
    (timer_is_close (s_timer q) = false ->
     timer_armed (s_timer s1) = true \/
     (timer_is_idle (s_timer s1) = true /\ s_remote_last_seq s1 = s_local_seq_no s1 /\
-     (0 < rb_len (s_tx_buffer s1) -> s_remote_win_len s1 <> 0)))).
+     (0 < rb_len (s_tx_buffer s1) -> s_remote_win_len s1 <> 0))) /\
+   s_remote_mss s1 = s_remote_mss q).
 Proof.
   intros cx s s1 tg H q now. unfold tcp_dispatch_timers in H. fold (dt_pre cx s) in H. fold q in H.
   fold now in H.
@@ -395,7 +398,7 @@ Proof.
   { inversion Hd; subst s'. rewrite (poll_at_no_tuple _ _ (tcp_reset_tuple s)) in Hp.
     inversion Hp. exact I. }
   obind_inv Hd. destruct a as (s1, t1). obind_inv Hd. destruct a as ((s2, go), t2).
-  pose proof (dt_pre_core cx s) as (Q1 & Q2 & Q3 & Q4 & Q5 & Q6 & Q7 & Q8 & Q9 & Q10).
+  pose proof (dt_pre_core cx s) as (Q1 & Q2 & Q3 & Q4 & Q5 & Q6 & Q7 & Q8 & Q9 & Q10 & Q11).
   pose proof (dt_pre_lts cx s) as Qlts. pose proof (dt_pre_misc cx s) as (Qto & _).
   destruct (decide_spec _ _ _ _ _ E0) as [(-> & ->) | [(-> & ->) | (-> & -> & D1 & D2 & D3 & D4 & D5 & D6 & D7)]].
   - (* a reason to send: something is built unless LISTEN, which has no tuple *)
@@ -437,7 +440,7 @@ Qed.
 (* ------------------------------------------------------------------------------------------ *)
 (* preservation: API calls                                                                      *)
 (* ------------------------------------------------------------------------------------------ *)
-Ltac inv_destruct I := destruct I as [Il It Ic In Iu Ix Iw Is Ib Icc Ir IK].
+Ltac inv_destruct I := destruct I as [Il It Ic In Iu Ix Iw Is Ib Icc Ir IK Im].
 
 Lemma rb_clear_len : forall r, rb_len (rb_clear r) = 0.
 Proof. reflexivity. Qed.
@@ -445,11 +448,14 @@ Proof. reflexivity. Qed.
 Lemma u32_0 : u32 0.
 Proof. unfold u32. lia. Qed.
 
+Lemma default_mss_pos : 0 < tcp_DEFAULT_MSS.
+Proof. reflexivity. Qed.
+
 Lemma reset_inv : forall s, tcp_live_inv s -> tcp_live_inv (tcp_reset s).
 Proof.
   intros s I. inv_destruct I. unfold tcp_reset.
   constructor; unfold live_K; sproj; cbn [timer_new timer_is_close st_conn st_nodata st_live];
-    try discriminate; try congruence; auto using u32_0, rb_clear_wf, rtte_default_ok.
+    try discriminate; try congruence; auto using u32_0, rb_clear_wf, rtte_default_ok, default_mss_pos.
   change (2 ^ 30) with 1073741824. lia.
 Qed.
 
@@ -459,7 +465,7 @@ Proof.
   intros rx tx cc ts s Hcc H. unfold tcp_new in H.
   destruct (rb_cap (rb_new rx) >? 2 ^ 30); [discriminate|]. inversion H; subst s; clear H.
   constructor; unfold live_K; sproj; cbn [timer_new timer_is_close st_conn st_nodata st_live];
-    try discriminate; try congruence; auto using u32_0, rb_new_wf, rtte_default_ok.
+    try discriminate; try congruence; auto using u32_0, rb_new_wf, rtte_default_ok, default_mss_pos.
   change (2 ^ 30) with 1073741824. lia.
 Qed.
 
@@ -547,15 +553,16 @@ Proof.
                s_tx_buffer s1 = tx /\ s_local_seq_no s1 = s_local_seq_no s /\
                s_remote_last_seq s1 = s_remote_last_seq s /\ s_remote_win_len s1 = s_remote_win_len s /\
                s_remote_win_scale s1 = s_remote_win_scale s /\
-               s_congestion_controller s1 = s_congestion_controller s /\ s_rtte s1 = s_rtte s).
+               s_congestion_controller s1 = s_congestion_controller s /\ s_rtte s1 = s_rtte s /\
+               s_remote_mss s1 = s_remote_mss s).
   { unfold s1. destruct (rb_len (s_tx_buffer s) =? 0); sproj; repeat split; reflexivity. }
-  destruct C1 as (C1 & C2 & C3 & C4 & C5 & C6 & C7 & C8 & C9 & C10).
+  destruct C1 as (C1 & C2 & C3 & C4 & C5 & C6 & C7 & C8 & C9 & C10 & C11).
   destruct ((s_remote_win_len s1 =? 0) && timer_is_idle (s_timer s1)) eqn:Hz.
   - (* window closed and timer idle: the probe timer is armed *)
-    constructor; unfold live_K; sproj; rewrite ?C1, ?C3, ?C4, ?C5, ?C6, ?C7, ?C8, ?C9, ?C10; auto.
+    constructor; unfold live_K; sproj; rewrite ?C1, ?C3, ?C4, ?C5, ?C6, ?C7, ?C8, ?C9, ?C10, ?C11; auto.
     + cbn. discriminate.
     + rewrite Hnd. discriminate.
-  - constructor; unfold live_K in *; rewrite ?C1, ?C2, ?C3, ?C4, ?C5, ?C6, ?C7, ?C8, ?C9, ?C10; auto.
+  - constructor; unfold live_K in *; rewrite ?C1, ?C2, ?C3, ?C4, ?C5, ?C6, ?C7, ?C8, ?C9, ?C10, ?C11; auto.
     + rewrite Hnd. discriminate.
     + intros _. destruct (IK Hlive) as [Ha | (Hfl & Hw)]; [left; exact Ha|].
       destruct (timer_cases (s_timer s)) as [Hi | [Ha | Hc]]; [|left; exact Ha|congruence].
@@ -719,7 +726,8 @@ Record tcp_weak_inv (s : socket) : Prop := mkWeakInv {
   wi_scale : match s_remote_win_scale s with Some x => 0 <= x <= 14 | None => True end;
   wi_tx : rb_wf (s_tx_buffer s);
   wi_cc : cc_ok (s_congestion_controller s);
-  wi_rtte : rtte_ok (s_rtte s)
+  wi_rtte : rtte_ok (s_rtte s);
+  wi_mss : 0 < s_remote_mss s
 }.
 
 Lemma inv_weak : forall s, tcp_live_inv s -> tcp_weak_inv s.
@@ -729,7 +737,7 @@ Lemma weak_inv_full : forall s, tcp_weak_inv s ->
   (st_nodata (s_state s) = true -> rb_len (s_tx_buffer s) = 0) -> live_K s -> tcp_live_inv s.
 Proof. intros s [] Hn HK. constructor; assumption. Qed.
 
-Ltac weak_destruct W := destruct W as [Wl Wt Wc Wu Wx Ww Ws Wb Wcc Wr].
+Ltac weak_destruct W := destruct W as [Wl Wt Wc Wu Wx Ww Ws Wb Wcc Wr Wm].
 
 (* same fields, controller possibly different but still sane *)
 Definition core_sim (s s' : socket) : Prop :=
@@ -738,16 +746,19 @@ Definition core_sim (s s' : socket) : Prop :=
   s_remote_last_seq s' = s_remote_last_seq s /\ s_remote_win_len s' = s_remote_win_len s /\
   s_remote_win_scale s' = s_remote_win_scale s /\
   (cc_ok (s_congestion_controller s) -> cc_ok (s_congestion_controller s')) /\
-  s_rtte s' = s_rtte s.
+  s_rtte s' = s_rtte s /\ 0 < s_remote_mss s'.
 
-Lemma apply_mss_sim : forall s r,
+Lemma min_remote_mss_pos : 0 < tcp_MIN_REMOTE_MSS.
+Proof. reflexivity. Qed.
+
+Lemma apply_mss_sim : forall s r, 0 < s_remote_mss s ->
   core_sim s (tcp_apply_mss s r) /\
   s_listen_endpoint (tcp_apply_mss s r) = s_listen_endpoint s /\
   s_keep_alive (tcp_apply_mss s r) = s_keep_alive s.
 Proof.
-  intros. unfold tcp_apply_mss, core_sim. destruct (r_max_seg_size r) as [m|]; [|auto 15].
-  destruct (m =? 0); [auto 15|]. sproj. repeat split; try reflexivity.
-  apply cc_set_mss_ok. assert (0 < tcp_MIN_REMOTE_MSS) by reflexivity. lia.
+  intros s r Hm. unfold tcp_apply_mss, core_sim. pose proof min_remote_mss_pos.
+  destruct (r_max_seg_size r) as [m|]; [destruct (m =? 0)|]; sproj;
+    (repeat split; try reflexivity; try lia; try (apply cc_set_mss_ok; lia)).
 Qed.
 
 Lemma quash_spec : forall s r,
@@ -853,9 +864,9 @@ Proof.
            end;
     try discriminate.
   (* Listen, SYN *)
-  { destruct (apply_mss_sim s r) as ((A1&A2&A3&A4&A5&A6&A7&A8&A9&A10) & A11 & A12).
-    revert H A1 A2 A3 A4 A5 A6 A7 A8 A9 A10 A11 A12. generalize (tcp_apply_mss s r).
-    intros q H A1 A2 A3 A4 A5 A6 A7 A8 A9 A10 A11 A12.
+  { destruct (apply_mss_sim s r (wi_mss s W)) as ((A1&A2&A3&A4&A5&A6&A7&A8&A9&A10&Am) & A11 & A12).
+    revert H A1 A2 A3 A4 A5 A6 A7 A8 A9 A10 A11 A12 Am. generalize (tcp_apply_mss s r).
+    intros q H A1 A2 A3 A4 A5 A6 A7 A8 A9 A10 A11 A12 Am.
     destruct (is_some (r_timestamp r));
       destruct (is_some (s_remote_win_scale
                    (upd_remote_win_scale (upd_remote_has_sack (upd_remote_last_win (upd_remote_last_ack
@@ -872,9 +883,9 @@ Proof.
       (split; [sproj; congruence|]); (split; [sproj; rewrite ?Hst; cbn [st_nodata]; auto|]);
       left; sproj; repeat split; auto. }
   (* SynSent, SYN *)
-  { destruct (apply_mss_sim s r) as ((A1&A2&A3&A4&A5&A6&A7&A8&A9&A10) & A11 & A12).
-    revert H A1 A2 A3 A4 A5 A6 A7 A8 A9 A10 A11 A12. generalize (tcp_apply_mss s r).
-    intros q H A1 A2 A3 A4 A5 A6 A7 A8 A9 A10 A11 A12.
+  { destruct (apply_mss_sim s r (wi_mss s W)) as ((A1&A2&A3&A4&A5&A6&A7&A8&A9&A10&Am) & A11 & A12).
+    revert H A1 A2 A3 A4 A5 A6 A7 A8 A9 A10 A11 A12 Am. generalize (tcp_apply_mss s r).
+    intros q H A1 A2 A3 A4 A5 A6 A7 A8 A9 A10 A11 A12 Am.
     destruct (is_some (r_ack_number r)) eqn:Hack; destruct (is_some (r_timestamp r));
       match type of H with context [if is_some (s_remote_win_scale ?x) then _ else _] =>
         destruct (is_some (s_remote_win_scale x)) end;
@@ -978,14 +989,14 @@ Definition core_but_timer (s s' : socket) : Prop :=
   s_remote_last_seq s' = s_remote_last_seq s /\ s_remote_win_len s' = s_remote_win_len s /\
   s_remote_win_scale s' = s_remote_win_scale s /\
   s_congestion_controller s' = s_congestion_controller s /\ s_rtte s' = s_rtte s /\
-  s_keep_alive s' = s_keep_alive s.
+  s_keep_alive s' = s_keep_alive s /\ s_remote_mss s' = s_remote_mss s.
 
 Lemma weak_inv_timer : forall s s', tcp_weak_inv s -> core_but_timer s s' ->
   (timer_is_close (s_timer s') = true -> timer_is_close (s_timer s) = true) ->
   tcp_weak_inv s'.
 Proof.
-  intros s s' W (E1&E2&E3&E4&E5&E6&E7&E8&E9&E10) Hc. weak_destruct W.
-  constructor; rewrite ?E1, ?E2, ?E3, ?E4, ?E5, ?E6, ?E7, ?E8, ?E9; auto.
+  intros s s' W (E1&E2&E3&E4&E5&E6&E7&E8&E9&E10&E11) Hc. weak_destruct W.
+  constructor; rewrite ?E1, ?E2, ?E3, ?E4, ?E5, ?E6, ?E7, ?E8, ?E9, ?E11; auto.
 Qed.
 
 Definition timers_fn (t : timer) (now : Z) (ka : option Z) (rto al : Z) (aall : bool) : timer :=
@@ -1179,7 +1190,7 @@ Proof.
   destruct p2 as [t2 ((s2, payload), off)|t2 s2r rep2].
   2:{ inversion H; subst s'. exact P2. }
   pose proof (inv_core_eq _ _ P2 I) as I2.
-  destruct P2 as (C1 & C2 & C3 & C4 & C5 & C6 & C7 & C8 & C9 & C10).
+  destruct P2 as (C1 & C2 & C3 & C4 & C5 & C6 & C7 & C8 & C9 & C10 & C11).
   obind_inv H. destruct a as ((al, aof), aall). rename E into Hal.
   destruct (ack_len_spec _ _ _ _ _ Hal) as (Hof & Hall).
   obind_inv H. rename a into p3. rename E into H3.
@@ -1201,13 +1212,13 @@ Proof.
   assert (Cq : core_eq s5 q5 /\ s_keep_alive q5 = s_keep_alive s5).
   { unfold q5. destruct (r_timestamp r) as [(tv, te)|]; [split; [core_triv | reflexivity]|].
     split; [apply core_eq_refl | reflexivity]. }
-  destruct Cq as ((D1 & D2 & D3 & D4 & D5 & D6 & D7 & D8 & D9 & D10) & D11). clearbody q5.
+  destruct Cq as ((D1 & D2 & D3 & D4 & D5 & D6 & D7 & D8 & D9 & D10 & Dm) & D11). clearbody q5.
   pose proof (timers_spec cx q5 al aall) as P6.
   destruct (tcp_process_timers cx q5 al aall) as (s6, t6). cbn [fst] in P6.
-  destruct P6 as ((F1 & F2 & F3 & F4 & F5 & F6 & F7 & F8 & F9 & F10) & Ft6).
+  destruct P6 as ((F1 & F2 & F3 & F4 & F5 & F6 & F7 & F8 & F9 & F10 & F11) & Ft6).
   pose proof (zwp_spec cx s6 al) as P7.
   destruct (tcp_process_zwp cx s6 al) as (s7, t7). cbn [fst] in P7.
-  destruct P7 as ((G1 & G2 & G3 & G4 & G5 & G6 & G7 & G8 & G9 & G10) & Ft7).
+  destruct P7 as ((G1 & G2 & G3 & G4 & G5 & G6 & G7 & G8 & G9 & G10 & G11) & Ft7).
   obind_inv H. destruct a as ((s8, rep8), t8). rename E into H8.
   pose proof (payload_core _ _ _ _ _ _ _ _ _ H8) as C8'.
   inversion H; subst s'. clear H.
@@ -1223,7 +1234,7 @@ Proof.
   rewrite U4, X4 in Seq5. specialize (Hmid Seq5). destruct Hmid as (HA & HB).
   (* weak invariant of s7 *)
   assert (W5q : tcp_weak_inv q5).
-  { weak_destruct W5. constructor; rewrite ?D1, ?D2, ?D3, ?D4, ?D5, ?D6, ?D7, ?D8, ?D9, ?D10; assumption. }
+  { weak_destruct W5. constructor; rewrite ?D1, ?D2, ?D3, ?D4, ?D5, ?D6, ?D7, ?D8, ?D9, ?D10, ?Dm; assumption. }
   assert (Hlive_nc : st_live (s_state s5) = true -> timer_is_close (s_timer s5) = false).
   { intros Hl. destruct (timer_is_close (s_timer s5)) eqn:Ec; [|reflexivity].
     destruct (wi_close s5 W5 Ec) as [X|X]; rewrite X in Hl; discriminate. }
@@ -1268,15 +1279,15 @@ Lemma dispatch_timers_inv : forall cx s s1 tg,
 Proof.
   intros cx s s1 tg I H.
   pose proof (inv_core_eq _ _ (dt_pre_core cx s) I) as Iq.
-  destruct (dt_spec _ _ _ _ H) as [(_ & ->) | [(_ & _ & ->) | (_ & Hsr & E1 & E2 & E3 & E4 & E5 & E6 & _ & _ & Hcc & Hrt & Hnx & _ & HK)]].
+  destruct (dt_spec _ _ _ _ H) as [(_ & ->) | [(_ & _ & ->) | (_ & Hsr & E1 & E2 & E3 & E4 & E5 & E6 & _ & _ & Hcc & Hrt & Hnx & _ & HK & Hm)]].
   - apply set_closed_inv. exact Iq.
   - exact Iq.
-  - revert Iq E1 E2 E3 E4 E5 E6 Hcc Hrt Hnx HK Hsr. generalize (dt_pre cx s). intros q Iq.
-    intros E1 E2 E3 E4 E5 E6 Hcc Hrt Hnx HK Hsr. inv_destruct Iq.
+  - revert Iq E1 E2 E3 E4 E5 E6 Hcc Hrt Hnx HK Hsr Hm. generalize (dt_pre cx s). intros q Iq.
+    intros E1 E2 E3 E4 E5 E6 Hcc Hrt Hnx HK Hsr Hm. inv_destruct Iq.
     assert (Hnc : timer_is_close (s_timer q) = false).
     { destruct (s_timer q); try reflexivity. cbn in Hsr. discriminate. }
     specialize (HK Hnc).
-    constructor; unfold live_K; rewrite ?E1, ?E2, ?E3, ?E4, ?E5, ?E6; auto.
+    constructor; unfold live_K; rewrite ?E1, ?E2, ?E3, ?E4, ?E5, ?E6, ?Hm; auto.
     + intros Hc. destruct HK as [Ha | (Hi & _)].
       * rewrite (armed_not_close _ Ha) in Hc. discriminate.
       * destruct (s_timer s1); discriminate.
